@@ -447,6 +447,49 @@ theorem join_keys (inputs : List (String × PInput)) (on : List String)
   · cases h
   · cases h
 
+/-- **one row per key**, as a count: when no table input repeats a key, every key that qualifies
+(`JoinSpec.keys`) is carried by exactly one row of the joined table -/
+theorem join_one_row_per_key {inputs : List (String × PInput)} {on : List String}
+    {defaults : List (String × Cell)} {ds : Table} (hs : JoinSpec inputs on defaults ds)
+    (hu : ∀ kv ∈ tableInputs inputs, kv.2.R.uniq on) (k : Row)
+    (h1 : ∀ kv ∈ tableInputs inputs, dfltOf defaults kv.1 = none → kv.2.R.hasK on k)
+    (h2 : (∀ kv ∈ tableInputs inputs, (dfltOf defaults kv.1).isSome = true) →
+      ∃ kv ∈ tableInputs inputs, kv.2.R.hasK on k) :
+    ∃ q, q < ds.nrows ∧ keq on (ds.rowF q) k ∧
+      ∀ q', q' < ds.nrows → keq on (ds.rowF q') k → q' = q := by
+  obtain ⟨q, hq, hk⟩ := (hs.keys k).2 ⟨h1, h2⟩
+  refine ⟨q, hq, hk, fun q' hq' hk' => ?_⟩
+  exact hs.one_per_key hu q' q hq' hq (keq_trans hk' (keq_symm hk))
+
+/-- **the value cells, in table terms**: in row `q` of the joined table, the column of the table
+input `(name, d)` holds `d`'s value column (`valueCol`) at *the* row `j` of `d` carrying the key of
+row `q` (`d` without repeated keys) — and when `d` has no such row, the default of `name`, which
+then exists -/
+theorem join_value_at {inputs : List (String × PInput)} {on : List String}
+    {defaults : List (String × Cell)} {ds : Table} (hs : JoinSpec inputs on defaults ds)
+    (a : String × Table) (ha : a ∈ tableInputs inputs) (hoff : a.1 ∉ on) (q : Nat)
+    (hq : q < ds.nrows) :
+    (∀ j, j < a.2.nrows → keq on (a.2.rowF j) (ds.rowF q) → a.2.R.uniq on →
+      ds.jcellAt a.1 q = a.2.jcellAt (valueCol a.2 a.1 on) j) ∧
+    ((∀ j, j < a.2.nrows → ¬ keq on (a.2.rowF j) (ds.rowF q)) →
+      ∃ v, dfltOf defaults a.1 = some v ∧ ds.jcellAt a.1 q = v) := by
+  have hv := hs.values q hq (inputSrc on defaults a) (List.mem_map.2 ⟨a, ha, rfl⟩)
+  have hag := inputRows_agree on a.1 a.2 hoff
+  constructor
+  · intro j hj hk hu
+    rcases hv with ⟨j', hj', hk', hval⟩ | ⟨hno, _⟩
+    · have hk'' : keq on (a.2.rowF j') (ds.rowF q) := keq_trans (keq_symm (hag j')) hk'
+      have : j' = j := hu j' j hj' hj (keq_trans hk'' (keq_symm hk))
+      subst this
+      have : ds.jcellAt a.1 q = (inputRows on a.1 a.2).row j' a.1 := hval
+      rw [this]
+      simp [inputRows]
+    · exact absurd (keq_trans (hag j) hk) (hno j hj)
+  · intro hno
+    rcases hv with ⟨j', hj', hk', _⟩ | ⟨_, v, hd, hval⟩
+    · exact absurd (keq_trans (keq_symm (hag j')) hk') (hno j' hj')
+    · exact ⟨v, hd, hval⟩
+
 /-! ## end to end -/
 
 /-- **The property, end to end.**  A function lifted with `perdictable(f, on = keys)` is called with
